@@ -215,10 +215,12 @@ func C09Cases(tier string, seed int64) []Case {
 				Sym: func(e *SymEnv) { c09ECBBOT(e, ll, c) }, MustReach: []string{"ecbbot-done"}})
 		}
 	}
-	// The RVOLE harness is NOT registered: with xi = 416 OT instances × (L+2) blocks one run did not
-	// finish within 65 minutes (thousands of path literals from the identity checks of every OT
-	// instance make each decision query slow). Kept for a future engine with cheaper path handling.
-	for _, l := range []int{} {
+	// RVOLE: xi = 416 OT instances × (L+2) blocks per run (≈ 2.5 min for L = 1 on one core)
+	rvoleLs := []int{1}
+	if tier == "thorough" {
+		rvoleLs = []int{1, 2}
+	}
+	for _, l := range rvoleLs {
 		ll := l
 		cases = append(cases, Case{ID: fmt.Sprintf("C09/rvole-bbot/L=%d", l), Desc: map[string]any{"protocol": "rvole/bbot over ecbbot", "L": l, "inputs and randomness": "symbolic", "xi": "kappa + 2·80 OT instances"},
 			Sym: func(e *SymEnv) { c09RVOLE(e, ll) }, MustReach: []string{"rvole-done"}, NoConcreteValidation: true})
